@@ -40,28 +40,40 @@ var _ Unit = (*Storage)(nil)
 func (m ResourceUnits) Add(rhs ResourceUnits) (ResourceUnits, error) {
 	res := m
 
+	// the result must not share the unit objects of either operand: they are
+	// copied before being updated (as Sub does), otherwise folding a list of
+	// units mutates the units themselves
 	if res.CPU != nil {
+		cpu := *res.CPU
+		res.CPU = &cpu
 		if err := res.CPU.add(rhs.CPU); err != nil {
 			return ResourceUnits{}, err
 		}
-	} else {
-		res.CPU = rhs.CPU
+	} else if rhs.CPU != nil {
+		cpu := *rhs.CPU
+		res.CPU = &cpu
 	}
 
 	if res.Memory != nil {
+		mem := *res.Memory
+		res.Memory = &mem
 		if err := res.Memory.add(rhs.Memory); err != nil {
 			return ResourceUnits{}, err
 		}
-	} else {
-		res.Memory = rhs.Memory
+	} else if rhs.Memory != nil {
+		mem := *rhs.Memory
+		res.Memory = &mem
 	}
 
 	if res.Storage != nil {
+		storage := *res.Storage
+		res.Storage = &storage
 		if err := res.Storage.add(rhs.Storage); err != nil {
 			return ResourceUnits{}, err
 		}
-	} else {
-		res.Storage = rhs.Storage
+	} else if rhs.Storage != nil {
+		storage := *rhs.Storage
+		res.Storage = &storage
 	}
 
 	return res, nil
